@@ -53,7 +53,7 @@ def build(kind, r):
         m = trimesh.Trimesh(vertices=V, faces=F, process=False)
         if kind == "mesh_texture":
             uv = np.round(rs.uniform(0, 1, (len(V), 2)), 4)
-            mat = trimesh.visual.material.SimpleMaterial(image=_img(r["salt"]), diffuse=[200, 100, 50, 255]) if r.get("material") != "pbr" else trimesh.visual.material.PBRMaterial(baseColorTexture=_img(r["salt"]), baseColorFactor=[200, 100, 50, 255], metallicFactor=0.25)
+            mat = trimesh.visual.material.SimpleMaterial(image=_img(r["salt"]), diffuse=[200, 100, 50, 255]) if r.get("material") != "pbr" else trimesh.visual.material.PBRMaterial(baseColorTexture=_img(r["salt"]), baseColorFactor=[200, 100, 50, 255], metallicFactor=0.25, emissiveFactor=[0.1, 0.2, 0.3])
             m.visual = trimesh.visual.TextureVisuals(uv=uv, material=mat)
         elif r.get("colors") == "vertex":
             m.visual.vertex_colors = np.column_stack([rs.randint(0, 256, (len(V), 3)), np.full(len(V), 255)]).astype(np.uint8)
@@ -193,6 +193,11 @@ def _visual(m):
             out["image"] = np.asarray(img).copy()
         if hasattr(mat, "metallicFactor"):
             out["metallic"] = mat.metallicFactor
+            out["emissive"] = None if mat.emissiveFactor is None else np.array(mat.emissiveFactor)
+            out["base_color"] = None if mat.baseColorFactor is None else np.array(mat.baseColorFactor)
+        for name in ("diffuse", "ambient", "specular"):
+            if hasattr(mat, name) and getattr(mat, name) is not None:
+                out[name] = np.array(getattr(mat, name))
     return out
 
 
@@ -227,7 +232,12 @@ def observe(kind, o, deep=True):
                 out["area"] = float(o.area)
         return out
     if kind == "points":
-        return {"vertices": np.array(o.vertices), "colors": np.array(o.colors) if o.colors is not None else None, "metadata": _plain(dict(o.metadata)), "bounds": np.array(o.bounds) if len(o.vertices) else None}
+        out = {"vertices": np.array(o.vertices), "colors": np.array(o.colors) if o.colors is not None else None, "metadata": _plain(dict(o.metadata)), "bounds": np.array(o.bounds) if len(o.vertices) else None}
+        if deep and len(o.vertices) >= 5:
+            hull = o.convex_hull
+            out["hull"] = [float(hull.volume), np.array(hull.bounds)]
+            out["kdtree"] = np.array(o.kdtree.query(np.array([[0.1, 0.2, 0.3], [-1.0, 1.0, 0.5]]))[0])
+        return out
     if kind == "scene":
         out = {"edges": sorted((a, b, np.round(np.array(attr.get("matrix", np.eye(4))), 12).tolist(), attr.get("geometry"), repr(_plain(attr.get("metadata")))) for a, b, attr in o.graph.to_edgelist()), "base": o.graph.base_frame, "metadata": _plain(dict(o.metadata)), "geometry": {}}
         for name, g in o.geometry.items():
@@ -275,7 +285,7 @@ def preread(kind, o, name):
 # ----------------------------------------------------------------------------- edits
 EDITS = {
     "mesh": ["v_item", "v_iadd", "f_flip", "apply_transform", "apply_scale", "color_item", "meta_nested", "meta_new", "attr_item", "density", "center_mass", "update_faces", "invert", "merge_vertices", "assign_vertices", "v_sort", "visual_assign", "color_other_item"],
-    "mesh_texture": ["v_item", "apply_transform", "uv_item", "material_color", "image_pixel", "meta_nested", "update_faces"],
+    "mesh_texture": ["v_item", "apply_transform", "uv_item", "material_color", "image_pixel", "meta_nested", "update_faces", "material_color_inplace"],
     "primitive": ["param_set", "param_inplace", "transform_inplace", "apply_transform", "apply_scale", "meta_nested", "density", "apply_translation"],
     "path2d": ["v_item", "entity_points", "entity_color", "entity_layer", "apply_transform", "meta_nested", "entity_reverse", "v_iadd", "vattr_item"],
     "path3d": ["v_item", "entity_points", "entity_color", "entity_layer", "apply_transform", "meta_nested", "v_iadd", "vattr_item"],
@@ -357,6 +367,16 @@ def apply_edit(kind, o, e):
                 mat.diffuse = [i % 256, 5, 6, 255]
             else:
                 mat.baseColorFactor = [i % 256, 5, 6, 255]
+        elif k == "material_color_inplace":
+            # edit the colour arrays the material hands out, in place
+            mat = o.visual.material
+            arr = mat.baseColorFactor if hasattr(mat, "baseColorFactor") else mat.diffuse
+            if e.get("which", 0) % 2 and getattr(mat, "emissiveFactor", None) is not None:
+                arr = mat.emissiveFactor
+            try:
+                arr[i % 3] = (arr[i % 3] + 7) if arr.dtype.kind in "ui" else (float(arr[i % 3]) + d)
+            except ValueError:
+                raise Inapplicable()  # a read-only array cannot leak either
         elif k == "image_pixel":
             mat = o.visual.material
             img = getattr(mat, "image", None) or getattr(mat, "baseColorTexture", None)
@@ -603,7 +623,7 @@ class C17(World):
             ops.append({"op": "preread", "name": name, "rs": rng.randrange(2**31)})
         if rng.random() < 0.4:
             ops.append(self._gen_edit(rng, kind, cfg, "pre"))
-        ops.append({"op": "copy", "route": cfg["route"], "rs": rng.randrange(2**31)})
+        ops.append({"op": "copy", "route": cfg["route"], "rs": rng.randrange(2**31), "quiet": rng.random() < 0.5})
         for _ in range(cfg["n_edits"]):
             ops.append(self._gen_edit(rng, kind, cfg, rng.choice(["original", "copy"])))
             if rng.random() < 0.3:
@@ -679,7 +699,11 @@ class C17(World):
                     for e in pre_edits:
                         apply_edit(kind, twin_o, e)
                         apply_edit(kind, twin_c, e)
-                    self._eq(ctx, kind, twin_o, orig, "harness", "twin-vs-original")
+                    quiet = bool(op.get("quiet")) and not any(e["edit"] in ("color_other_item", "geom_color_other", "color_item", "geom_color") for e in pre_edits)
+                    if not quiet:
+                        self._eq(ctx, kind, twin_o, orig, "harness", "twin-vs-original")
+                    # (quiet: nothing is read from the original between its last edit and the copy, so a copy that hands over
+                    #  memoised values without verifying them shows)
                     # the copy's twin goes through the same reads as everything else (lazy promotion of edited derived colours
                     # depends on what was read: a read-history question, not a sharing question)
                     observe(kind, twin_c)
